@@ -472,41 +472,86 @@ static void boundary(void)
  * hash indices are 16-bit. 2^32 + 5 + 77777 input bytes are fed in 1 MiB pieces; the gzip stream is (a) checked for its trailer
  * against the reference CRC-32 / length, (b) decoded again by isal_inflate (trailer verification on) and by zlib, both streaming,
  * and the decoded bytes are compared piece by piece with the input. Data: a constant byte, or a 3 MiB mixed block repeated. */
+/* expected data of the big streams: kinds 0/1 are periodic (3 MiB); kinds 2/3 are constant 'z' except 4 MiB of noise centred on
+ * offset 2^32 (a stored-block fallback straddling the point where the 32-bit running offsets wrap) */
+static uint8_t *bs_src, *bs_noise;
+static const uint8_t *bs_at(int kind, uint64_t pos, size_t *n)
+{
+	enum { PERIOD = 3 << 20 };
+	if (kind < 2) {
+		*n = PERIOD - pos % PERIOD;
+		return bs_src + pos % PERIOD;
+	}
+	/* the zone starts half a MiB off the MiB grid, so that the 1 MiB input pieces that follow have offset 2^32 in their INTERIOR (a block
+	 * can be emitted as a stored block only while all of its input is still in the caller's current piece) */
+	uint64_t lo = (1ull << 32) - (5 << 19), hi = (1ull << 32) + (3 << 19);
+	if (pos >= lo && pos < hi) {
+		*n = hi - pos;
+		return bs_noise + (pos - lo);
+	}
+	*n = pos < lo ? lo - pos : ~(size_t)0;
+	if (*n > (3 << 20))
+		*n = 3 << 20;
+	return bs_src; /* 4 MiB of 'z' */
+}
 static void big_stream(int level, int kind)
 {
 	enum { PIECE = 1 << 20, PERIOD = 3 << 20 };
 	static uint8_t *src, *obuf, *cbuf;
 	static uint8_t lb[ISAL_DEF_LVL3_DEFAULT];
 	const uint64_t total = (1ull << 32) + 5 + 77777;
-	size_t ccap = kind ? (size_t)7 << 29 : 64 << 20; /* compressed size: mixed data needs room (lazily touched) */
+	size_t ccap = kind == 1 ? (size_t)7 << 29 : 64 << 20; /* compressed size: mixed data needs room (lazily touched) */
 	if (!src) {
 		src = malloc(PERIOD + PIECE);
 		obuf = malloc(PIECE);
+		bs_noise = malloc(4 << 20);
+		fill_xorshift(bs_noise, 4 << 20, 20260);
 	}
+	bs_src = src;
 	cbuf = malloc(ccap);
 	if (!cbuf) {
 		v_not_exhaustive("big stream: cannot allocate the compressed-stream buffer");
 		return;
 	}
-	if (kind == 0)
+	if (kind != 1)
 		memset(src, 'z', PERIOD + PIECE);
 	else {
 		fill_mixed(src, PERIOD, 31 + level);
 		memcpy(src + PERIOD, src, PIECE);
 	}
 	char key[200];
-	snprintf(key, sizeof key, "big-stream level=%d data=%s total=2^32+77782", level, kind ? "mixed(period 3 MiB)" : "constant");
-	struct isal_zstream s;
+	snprintf(key, sizeof key, "big-stream level=%d data=%s total=2^32+77782", level, kind == 0 ? "constant" : kind == 1 ? "mixed(period 3 MiB)" : kind == 2 ? "constant with 4 MiB of noise around offset 2^32" : "constant with 4 MiB of noise around offset 2^32, 4096-byte output pieces, level buffer between SMALL and MEDIUM");
+	/* the stream object starts directly behind an inaccessible page: the codec keeps its history inside the object, and a look-back
+	 * that strays in front of it faults */
+	static struct isal_zstream *sp;
+	if (!sp)
+		sp = g_persist(sizeof *sp, G_START);
+#define s (*sp)
 	isal_deflate_init(&s);
 	s.avail_in = 0; /* not touched by isal_deflate_init; the feeding loop below tests it */
 	s.level = level; s.level_buf = level ? lb : NULL; s.level_buf_size = level ? lvl_default[level] : 0; s.gzip_flag = IGZIP_GZIP;
+	if (kind == 3 && level) /* a size between the named ones: blocks of some 50 KiB, longer than the 32 KiB window yet inside the internal buffer */
+		s.level_buf_size = (lvl_small[level] + lvl_medium[level]) / 2;
 	uint64_t fed = 0, clen = 0;
 	uint32_t crc = 0;
+	int flush_pending = 0;
 	cpu_set_level(CPU_HOST);
 	while (s.internal_state.state != ZSTATE_END) {
-		if (s.avail_in == 0 && fed < total) {
-			size_t k = total - fed < PIECE ? total - fed : PIECE;
-			s.next_in = src + fed % PERIOD; s.avail_in = k;
+		/* a pending flush request is repeated (no new input) until it has completed: all input consumed and output space left */
+		if (s.avail_in == 0 && fed < total && !(s.flush != NO_FLUSH && flush_pending)) {
+			size_t k = total - fed < PIECE ? total - fed : PIECE, nmax;
+			s.next_in = (uint8_t *)bs_at(kind, fed, &nmax);
+			if (k > nmax)
+				k = nmax;
+			/* kinds 2/3: a SYNC_FLUSH shortly before the wrap pins a block start there (2^32-70000 / 2^32-40000): the block that is then
+			 * cut by the token-buffer capacity or by the output space straddles offset 2^32 */
+			uint64_t F = kind == 2 ? (1ull << 32) - 70000 : kind == 3 ? (1ull << 32) - 40000 : 0;
+			s.flush = NO_FLUSH;
+			if (F && fed < F && fed + k >= F) {
+				k = F - fed;
+				s.flush = kind == 3 ? FULL_FLUSH : SYNC_FLUSH; /* after a full flush the history is dropped: the internal buffer takes a whole new block */
+			}
+			s.avail_in = k;
 			crc = ri_crc32(crc, s.next_in, k);
 			fed += k;
 			s.end_of_stream = fed == total;
@@ -516,14 +561,24 @@ static void big_stream(int level, int kind)
 			free(cbuf);
 			return;
 		}
-		s.next_out = cbuf + clen; s.avail_out = PIECE;
-		int r = isal_deflate(&s);
+		uint32_t oa = kind == 3 ? 4096 : PIECE; /* kind 3: a stored block never fits: calls return in the middle of it */
+		s.next_out = cbuf + clen; s.avail_out = oa;
+		int r;
+		if (V_TRY()) {
+			r = isal_deflate(&s);
+			V_END();
+		} else {
+			v_violation(key, "%s after %llu input bytes", v_fault_desc(), (unsigned long long)fed);
+			free(cbuf);
+			return;
+		}
 		if (r != COMP_OK) {
 			v_violation(key, "isal_deflate returned %d after %llu bytes", r, (unsigned long long)fed);
 			free(cbuf);
 			return;
 		}
-		clen += PIECE - s.avail_out;
+		clen += oa - s.avail_out;
+		flush_pending = s.flush != NO_FLUSH && !(s.avail_in == 0 && s.avail_out > 0);
 	}
 	v_eval();
 	uint32_t scrc = cbuf[clen - 8] | cbuf[clen - 7] << 8 | cbuf[clen - 6] << 16 | (uint32_t)cbuf[clen - 5] << 24,
@@ -561,8 +616,10 @@ static void big_stream(int level, int kind)
 			ipos += consumed;
 			/* compare with the input (pieces may straddle the period) */
 			for (size_t i = 0; i < produced && !bad;) {
-				size_t off = (got + i) % PERIOD, n = produced - i < PERIOD - off ? produced - i : PERIOD - off;
-				if (got + i + n > total || memcmp(obuf + i, src + off, n)) {
+				size_t nmax;
+				const uint8_t *want = bs_at(kind, got + i, &nmax);
+				size_t n = produced - i < nmax ? produced - i : nmax;
+				if (got + i + n > total || memcmp(obuf + i, want, n)) {
 					v_violation(key, "%s output differs from the input near offset %llu", dec ? "zlib" : "isal_inflate", (unsigned long long)(got + i));
 					bad = 1;
 				}
@@ -581,6 +638,7 @@ static void big_stream(int level, int kind)
 	free(cbuf);
 	v_count("streams_over_4GiB_round_tripped", 1);
 	v_nontrivial(v_mix(0x4619, level * 2 + kind));
+#undef s
 }
 
 int main(int argc, char **argv)
@@ -635,8 +693,9 @@ int main(int argc, char **argv)
 	if (!v_part || !strcmp(v_part, "isize")) {
 		/* quick: levels 0 and 1 on constant data; thorough: all levels x both data kinds (one configuration per shard) */
 		for (int level = 0; level <= 3; level++)
-			for (int kind = 0; kind < 2; kind++) {
-				if (!v_thorough && (kind || level > 1))
+			for (int kind = 0; kind < 4; kind++) {
+				/* quick: constant data at levels 0-1, noise around the 2^32 offset at level 3 (ample output) and level 1 (4096-byte output, in-between level buffer) */
+				if (!v_thorough && !((kind == 0 && level <= 1) || (kind == 2 && level == 3) || (kind == 3 && level == 1)))
 					continue;
 				if (!v_mine(unit++))
 					continue;
